@@ -73,3 +73,100 @@ func c12d12bStrlen(ctx *Ctx) {
 		}
 	}
 }
+
+// c12d12bScenario names the scenario of a per-function theorem of Props/C12.lean (sound_<fn>) that a paired
+// run falls into, so that the evidence shows how often the search and the correspondence reach what each
+// theorem talks about (distribution keys `thm:<theorem>:<scenario>`).
+func c12d12bScenario(ctx *Ctx, fn string, os, ws []cty.Value) {
+	if len(os) != len(ws) || len(ws) == 0 {
+		return
+	}
+	tag := func(thm, sc string) { ctx.Tag("thm:" + thm + ":" + sc) }
+	shape := func(w cty.Value) string {
+		switch {
+		case !w.IsKnown() && w.Type() == cty.DynamicPseudoType:
+			return "dynamic-val"
+		case !w.IsKnown():
+			r := "unknown"
+			try(func() {
+				if w.Type().IsCollectionType() {
+					rng := w.Range()
+					if rng.LengthLowerBound() > 0 || rng.LengthUpperBound() < 1<<40 {
+						r = "unknown-with-length-bounds"
+					}
+				}
+				if w.Type() == cty.String && w.Range().StringPrefix() != "" {
+					r = "unknown-with-prefix"
+				}
+			})
+			return r
+		case w.IsNull():
+			return "null"
+		case !w.IsWhollyKnown():
+			if w.Type().IsSetType() {
+				return "set-with-unknown-member"
+			}
+			return "known-with-unknown-member"
+		}
+		return "unchanged"
+	}
+	w0 := shape(ws[0])
+	switch fn {
+	case "LengthFunc":
+		tag("sound_length", w0)
+	case "CompactFunc":
+		tag("sound_compact", w0)
+	case "DistinctFunc":
+		tag("sound_distinct", w0)
+	case "KeysFunc":
+		tag("sound_keys", w0)
+	case "ValuesFunc":
+		tag("sound_values", w0)
+	case "ReverseListFunc":
+		tag("sound_reverse", w0)
+	case "SortFunc":
+		tag("sound_sort", w0)
+	case "StrlenFunc":
+		tag("sound_strlen", w0)
+	case "CoalesceListFunc", "CoalesceFunc":
+		thm := "sound_coalescelist"
+		if fn == "CoalesceFunc" {
+			thm = "sound_coalesce"
+		}
+		first := "no-unknown-argument"
+		for _, w := range ws {
+			if !w.IsKnown() {
+				first = "some-argument-unknown"
+				break
+			}
+			if !w.IsWhollyKnown() {
+				first = "some-argument-partly-unknown"
+			}
+		}
+		tag(thm, first)
+	case "ElementFunc":
+		if len(ws) == 2 {
+			tag("sound_element", "list:"+w0+",index:"+shape(ws[1]))
+		}
+	case "ContainsFunc":
+		if len(ws) == 2 {
+			tag("sound_contains_partial", "haystack:"+w0+",needle:"+shape(ws[1]))
+		}
+	case "LookupFunc":
+		if len(ws) == 3 {
+			k := "object"
+			if os[0].Type().IsMapType() {
+				k = "map"
+			}
+			tag("sound_lookup_map_partial", k+":"+w0+",default:"+shape(ws[2]))
+		}
+	case "SetProductFunc":
+		any := "all-lengths-known"
+		for _, w := range ws {
+			if !w.IsKnown() {
+				any = "some-argument-of-unknown-length"
+			}
+		}
+		tag("sound_setproduct_counterexample", any)
+	}
+}
